@@ -42,9 +42,9 @@ Notation format := (format_pattern overflow_checks call_function transform forma
    function calls, memoizer) — for every fuel, so also the same Panic / OutOfFuel — and for every
    transform and every value formatter (no hypothesis). *)
 Theorem C08_write_eq_format :
-  forall args fuel p c,
-    format args (S fuel) p c =
-    match write args (S fuel) p c with
+  forall args fuel top p c,
+    format args (S fuel) top p c =
+    match write args (S fuel) top p c with
     | Done (o, sc) => Done (flatten o, sc)
     | Panic t => Panic t
     | OutOfFuel => OutOfFuel
@@ -62,18 +62,18 @@ Proof. exact (stringify_agree formatter custom_as_string). Qed.
    memoizer holds give the same tokens / text and the same scope up to the memoizer, and leave
    the memoizer invariant in force *)
 Theorem C08_cache_indep :
-  forall args fuel p c1 c2,
+  forall args fuel top p c1 c2,
     cache_ok rules c1 -> cache_ok rules c2 ->
-    observe (write args fuel p c1) = observe (write args fuel p c2) /\
-    observe_f (format args fuel p c1) = observe_f (format args fuel p c2) /\
-    cache_ok rules (cache_after c1 (write args fuel p c1)) /\
-    cache_ok rules (cache_after c1 (format args fuel p c1)).
+    observe (write args fuel top p c1) = observe (write args fuel top p c2) /\
+    observe_f (format args fuel top p c1) = observe_f (format args fuel top p c2) /\
+    cache_ok rules (cache_after c1 (write args fuel top p c1)) /\
+    cache_ok rules (cache_after c1 (format args fuel top p c1)).
 Proof.
-  intros args fuel p c1 c2 H1 H2.
+  intros args fuel top p c1 c2 H1 H2.
   destruct (write_cache_indep overflow_checks call_function transform formatter rules custom_as_string
-              unescape_write unescape_to_string f64_from_str b args fuel p c1 c2 H1 H2) as (A & B & _).
+              unescape_write unescape_to_string f64_from_str b args fuel top p c1 c2 H1 H2) as (A & B & _).
   destruct (format_cache_indep overflow_checks call_function transform formatter rules custom_as_string
-              unescape_write unescape_to_string f64_from_str b args fuel p c1 c2 H1 H2) as (C & D & _).
+              unescape_write unescape_to_string f64_from_str b args fuel top p c1 c2 H1 H2) as (C & D & _).
   auto.
 Qed.
 
@@ -82,11 +82,11 @@ Qed.
    fresh bundle (each request starts with the memoizer the previous one left), the same request
    gives the same observable result *)
 Theorem C08_history_indep :
-  forall (reqs1 reqs2 : list request) args fuel p,
+  forall (reqs1 reqs2 : list request) args fuel top p,
     let h := history overflow_checks call_function transform formatter rules custom_as_string
                unescape_write unescape_to_string f64_from_str b [] in
-    observe (write args fuel p (h reqs1)) = observe (write args fuel p (h reqs2)) /\
-    observe_f (format args fuel p (h reqs1)) = observe_f (format args fuel p (h reqs2)).
+    observe (write args fuel top p (h reqs1)) = observe (write args fuel top p (h reqs2)) /\
+    observe_f (format args fuel top p (h reqs1)) = observe_f (format args fuel top p (h reqs2)).
 Proof. intros. apply history_indep. Qed.
 
 End C08.
@@ -109,9 +109,9 @@ Definition ex_args : option fargs := Some [(s "name", VString (s "X"))].
 Definition ex_b : bundle := Bundle [] false.
 
 Example C08_example_agree :
-  (match format_pattern true ex_call None None ex_rules ex_id ex_id ex_id f64_from_str_exact ex_b ex_args 9 ex_pattern [] with
+  (match format_pattern true ex_call None None ex_rules ex_id ex_id ex_id f64_from_str_exact ex_b ex_args 9 None ex_pattern [] with
    | Done (t, _) => Some t | _ => None end) = Some (s "Hello X") /\
-  (match write_pattern true ex_call None None ex_rules ex_id ex_id ex_id f64_from_str_exact ex_b ex_args 9 ex_pattern [] with
+  (match write_pattern true ex_call None None ex_rules ex_id ex_id ex_id f64_from_str_exact ex_b ex_args 9 None ex_pattern [] with
    | Done (o, _) => Some (flatten o) | _ => None end) = Some (s "Hello X").
 Proof. split; vm_compute; reflexivity. Qed.
 
@@ -121,12 +121,12 @@ Definition ex_formatter : option (fvalue -> option bytes) :=
   Some (fun v => match v with VString x => Some ([60%N] ++ x ++ [62%N])%list | _ => None end).
 
 Example C08_example_string_formatter :
-  (match format_pattern true ex_call None ex_formatter ex_rules ex_id ex_id ex_id f64_from_str_exact ex_b ex_args 9 ex_pattern [] with
+  (match format_pattern true ex_call None ex_formatter ex_rules ex_id ex_id ex_id f64_from_str_exact ex_b ex_args 9 None ex_pattern [] with
    | Done (t, _) => Some t | _ => None end) = Some (s "Hello <X>") /\
-  (match write_pattern true ex_call None ex_formatter ex_rules ex_id ex_id ex_id f64_from_str_exact ex_b ex_args 9 ex_pattern [] with
+  (match write_pattern true ex_call None ex_formatter ex_rules ex_id ex_id ex_id f64_from_str_exact ex_b ex_args 9 None ex_pattern [] with
    | Done (o, _) => Some (flatten o) | _ => None end) = Some (s "Hello <X>") /\
   (* the single-text shortcut of Pattern::resolve: no formatter there either *)
-  (match format_pattern true ex_call None ex_formatter ex_rules ex_id ex_id ex_id f64_from_str_exact ex_b None 9
+  (match format_pattern true ex_call None ex_formatter ex_rules ex_id ex_id ex_id f64_from_str_exact ex_b None 9 None
            (Pattern [TextElement (s "Hello")]) [] with
    | Done (t, _) => Some t | _ => None end) = Some (s "Hello").
 Proof. repeat split; vm_compute; reflexivity. Qed.
